@@ -81,6 +81,31 @@ def lobe_known(m, conf):
     return False
 
 
+MICRO_KEY = 'fixSelfIntersects-micro-splice'
+
+
+def micro_known(m, conf):
+    """True when the confirmed witness lies in (or within 2 units of) the triangle that fixSelfIntersects'
+    "adjacent intersections" repair added to a ring (upstream's heuristic; recorded known finding)"""
+    if not conf:
+        return False
+    q = (geom.parse_q(conf['point'][0]), geom.parse_q(conf['point'][1]))
+    for tri in m.get('micro_splices') or []:
+        t = [tri]
+        if geom.wn(t, q) != 0 or geom.min_dist2(geom.closed_edges(t), q) <= 4:
+            return True
+    return False
+
+
+def sweep_key(m, conf, key):
+    """the recorded known findings of the sweep, identified by the verif event hooks"""
+    if lobe_known(m, conf):
+        return LOBE_KEY
+    if micro_known(m, conf):
+        return MICRO_KEY
+    return key
+
+
 # ------------------------------------------------------------------ C01
 def run_c01(ctx):
     n = _tier(ctx, 4000, 60000)
@@ -111,7 +136,7 @@ def run_c01(ctx):
                 ctx['distribution']['accepted_at_deeper_cover'] = ctx['distribution'].get('accepted_at_deeper_cover', 0) + 1
                 continue
         entry = _c01_entry(m)
-        v = {'key': LOBE_KEY if lobe_known(m, conf) else key, 'kind': 'region',
+        v = {'key': sweep_key(m, conf, key), 'kind': 'region',
              'detail': {'corpus_entry': entry, 'api': m['api'], 'solution': Sol, 'checker': res, 'confirmed': conf,
                         'split_discards': m.get('split_discards')}}
         if conf:
@@ -177,7 +202,7 @@ def run_c02(ctx):
             if r2.startswith('OK'):
                 ctx['distribution']['accepted_at_deeper_cover'] = ctx['distribution'].get('accepted_at_deeper_cover', 0) + 1
                 continue
-        v = {'key': LOBE_KEY if lobe_known(m, conf) else key, 'kind': 'canonical-' + what, 'detail': {'corpus_entry': entry, 'solution': Sol, 'checker': res, 'confirmed': conf}}
+        v = {'key': sweep_key(m, conf, key), 'kind': 'canonical-' + what, 'detail': {'corpus_entry': entry, 'solution': Sol, 'checker': res, 'confirmed': conf}}
         if conf:
             v['text'] = '%s at point (%s, %s) > 2 units from every solution edge: windings %s (clip type %d, fill rule %d, reverse=%s)' % (
                 txt, conf['point'][0], conf['point'][1], conf['windings'], m['ct'], m['fr'], m.get('rev', False))
@@ -266,7 +291,7 @@ def run_c19(ctx):
             r2 = fw.recheck_deeper(ctx['root'], ctx['outdir'], [cid]).get(cid, '')
             if r2.startswith('OK'):
                 continue
-        v = {'key': LOBE_KEY if lobe_known(m, conf) else key, 'kind': 'set-identities', 'detail': {'corpus_entry': entry, 'checker': res, 'confirmed': conf,
+        v = {'key': sweep_key(m, conf, key), 'kind': 'set-identities', 'detail': {'corpus_entry': entry, 'checker': res, 'confirmed': conf,
                                                                'outputs': {k: m[k] for k in ('U', 'I', 'D', 'X', 'D2')}}}
         if conf:
             v['text'] = 'fill rule %d: at point (%s, %s), > 2 units from every input edge, the parities of Union/Intersection/Difference/Xor/Difference(C,S) = %s break the set identities' % (
@@ -309,7 +334,7 @@ def run_same_region(ctx, cmd, prefix, n, corpus, a_key, b_key, band_fn, r2_fn, e
             r2x = fw.recheck_deeper(ctx['root'], ctx['outdir'], [cid]).get(cid, '')
             if r2x.startswith('OK'):
                 continue
-        v = {'key': LOBE_KEY if lobe_known(m, conf) else key, 'kind': 'region-differs', 'detail': {'corpus_entry': entry, 'case': m, 'checker': res, 'confirmed': conf}}
+        v = {'key': sweep_key(m, conf, key), 'kind': 'region-differs', 'detail': {'corpus_entry': entry, 'case': m, 'checker': res, 'confirmed': conf}}
         if conf:
             v['text'] = '%s: the two results differ at point (%s, %s), outside the rounding band (windings %s)' % (what_fn(m), conf['point'][0], conf['point'][1], conf['windings'])
         else:
@@ -562,7 +587,7 @@ def run_c08(ctx):
             r2 = fw.recheck_deeper(ctx['root'], ctx['outdir'], [cid]).get(cid, '')
             if r2.startswith('OK'):
                 continue
-        v = {'key': LOBE_KEY if lobe_known(m, conf) else key, 'kind': 'minkowski-' + kind, 'detail': {'corpus_entry': entry, 'result': R, 'quads': Q, 'checker': res, 'confirmed': conf}}
+        v = {'key': sweep_key(m, conf, key), 'kind': 'minkowski-' + kind, 'detail': {'corpus_entry': entry, 'result': R, 'quads': Q, 'checker': res, 'confirmed': conf}}
         if conf:
             v['text'] = 'Minkowski%s64 closed=%s: %s at point (%s, %s), windings %s' % ('Sum' if m['sum'] else 'Diff', m['closed'], what, conf['point'][0], conf['point'][1], conf['windings'])
         else:
@@ -803,6 +828,8 @@ def run_c13(ctx):
         mj = _re.search(r'join=(\d+)', m.get('op') or '')
         if lobe_known(m, conf):
             k = LOBE_KEY
+        elif micro_known(m, conf):
+            k = MICRO_KEY
         elif conf and bits >= 32:
             k = OVERFLOW_KEY
         elif (m.get('op') or '').startswith('InflatePaths64') and mj and int(mj.group(1)) == 1 and max(abs(x) for x in m['v']) >= 2 ** 47:
@@ -1110,7 +1137,7 @@ def run_c12(ctx):
             r2 = fw.recheck_deeper(ctx['root'], ctx['outdir'], [cid]).get(cid, '')
             if r2.startswith('OK'):
                 continue
-        v = {'key': LOBE_KEY if lobe_known(m, conf) else key, 'kind': 'history-region', 'detail': {'corpus_entry': entry, 'out_history': m['out_history'], 'out_fresh': m['out_fresh'], 'checker': res, 'confirmed': conf}}
+        v = {'key': sweep_key(m, conf, key), 'kind': 'history-region', 'detail': {'corpus_entry': entry, 'out_history': m['out_history'], 'out_fresh': m['out_fresh'], 'checker': res, 'confirmed': conf}}
         if conf:
             v['text'] = 'closed result after this history differs from a fresh engine\'s as a region at (%s, %s), windings %s' % (conf['point'][0], conf['point'][1], conf['windings'])
         else:
@@ -1169,7 +1196,7 @@ def run_c04(ctx):
             r2 = fw.recheck_deeper(ctx['root'], ctx['outdir'], [cid]).get(cid, '')
             if r2.startswith('OK'):
                 continue
-        v = {'key': key, 'kind': 'nesting-' + m['what'], 'detail': {'corpus_entry': entry, 'node': m['node'], 'other': m['other'], 'nodes': m['nodes'], 'checker': res, 'confirmed': conf}}
+        v = {'key': sweep_key(m, conf, key), 'kind': 'nesting-' + m['what'], 'detail': {'corpus_entry': entry, 'node': m['node'], 'other': m['other'], 'nodes': m['nodes'], 'checker': res, 'confirmed': conf}}
         if conf:
             v['text'] = '%s at point (%s, %s) (windings %s): node %s vs %s' % (txt, conf['point'][0], conf['point'][1], conf['windings'], m['node'][:4], m['other'][:4])
         else:
@@ -1204,8 +1231,14 @@ def _offset_common(ctx, cmd, pid, n, ent, classify):
         if kind == 'e':
             # over-shrinking premise: accepted means every interior point is within |delta| - tol of the boundary
             if res.startswith('OK') and m['out']:
-                e = ent(m)
-                viol.append({'key': fw.input_key(e), 'kind': 'over-shrink', 'text': 'every interior point is within |delta|-tol of the boundary but the result is not empty: %s' % str(m['out'])[:200], 'detail': {'corpus_entry': e, 'out': m['out']}})
+                # "over-shrinking yields an empty result", up to the property's 2-unit tolerance: slivers thinner than
+                # the tolerance (no point farther than 2 units from the result's own boundary) are not a violation
+                R = m['out']
+                deep = fw.confirm_region([R], geom.closed_edges(R), 4, (lambda w: w[0] == 0), None)
+                if deep:
+                    e = ent(m)
+                    viol.append({'key': fw.input_key(e), 'kind': 'over-shrink', 'text': 'every interior point is within |delta|-tol of the boundary but the result %s contains the point (%s, %s), more than 2 units inside it' % (str(R)[:160], deep['point'][0], deep['point'][1]),
+                                 'detail': {'corpus_entry': e, 'out': R, 'confirmed': deep}})
             continue
         if not res.startswith('OK'):
             pending.append(cid)
@@ -1274,7 +1307,7 @@ def _offset_common(ctx, cmd, pid, n, ent, classify):
 
 def run_c05(ctx):
     ent = lambda m: {'in': m['in'], 'delta': m['delta'], 'jt': m['jt'], 'miter': m.get('miter'), 'arc_tolerance': m.get('arc_tolerance')}
-    return _offset_common(ctx, 'c05', 'C05', _tier(ctx, 700, 20000), ent, lambda m, conf, kind: LOBE_KEY if lobe_known(m, conf) else None)
+    return _offset_common(ctx, 'c05', 'C05', _tier(ctx, 700, 20000), ent, lambda m, conf, kind: sweep_key(m, conf, None))
 
 
 def run_c10(ctx):
@@ -1375,7 +1408,7 @@ def run_c09(ctx):
                 r2 = fw.recheck_deeper(ctx['root'], ctx['outdir'], [cid]).get(cid, '')
                 if r2.startswith('OK'):
                     continue
-            v = {'key': LOBE_KEY if lobe_known(m, conf) else key, 'kind': 'closed-altered', 'detail': {'corpus_entry': entry, 'closed_solution': Sol, 'closed_without_open': Sol0, 'confirmed': conf}}
+            v = {'key': sweep_key(m, conf, key), 'kind': 'closed-altered', 'detail': {'corpus_entry': entry, 'closed_solution': Sol, 'closed_without_open': Sol0, 'confirmed': conf}}
             v['text'] = ('the closed solution computed in the presence of open paths differs from the one computed without them at (%s, %s), > 2 units from every closed input edge: windings with/without open paths %s' % (conf['point'][0], conf['point'][1], conf['windings'])) if conf else 'closed-solution certificate rejected (%s)' % res[:80]
             if not conf:
                 v['no_input'] = True
